@@ -624,3 +624,21 @@ Proof.
   destruct (IH h) as [n [[[h1 g1] y1] E]]. exists (S n). cbn [next]. rewrite E.
   destruct y1; eexists; reflexivity.
 Qed.
+
+(* the same link for a unify_arrays generator created directly (Answer.match) *)
+Theorem arrays_gen_matches_unify n h xs ys : wf h ->
+  (forall s', unify_arrays n h xs ys = UOk s' ->
+     exists g1, next (S n) h (GArrFresh xs ys) = Some (s', g1, true)) /\
+  (unify_arrays n h xs ys = UFail -> exists g1, next (S n) h (GArrFresh xs ys) = Some (h, g1, false)).
+Proof.
+  intros W. unfold unify_arrays. cbn [next].
+  destruct (Nat.eqb (length xs) (length ys)) eqn:C.
+  - destruct (open_arr_link (gen_link n) xs ys W) as [A B]. split.
+    + intros s' H. destruct (A _ H) as [held Hh]. rewrite Hh. eauto.
+    + intros H. apply Nat.eqb_eq in C. destruct (B H C) as [hx [held Hh]].
+      assert (N: next (S n) h (GArrFresh xs ys) = Some (close_all hx held, GDone, false)).
+      { cbn [next]. rewrite (proj2 (Nat.eqb_eq _ _) C), Hh. reflexivity. }
+      pose proof (@next_fresh (S n) h (GArrFresh xs ys) _ I N) as [_ Hn]. destruct (Hn eq_refl) as [E _].
+      rewrite Hh, E. eauto.
+  - split; [discriminate|]. intros _. eauto.
+Qed.
